@@ -9,9 +9,9 @@ new kind=es|gae sel=<str> rule=<str>|<nat> batch=<nat>      → ok | err value |
 telldqd                                                     → ok
 ask <tokens>                                                → ok | err runtime
 tell sols=<nats> st=<nats> perm=<nats> vals=<strs> stop=0|1 arch=<nats> rnd=<nat>
-   → ok np=<n> restart=0|1 itrs=<n> restarts=<n> acts=<act>|<act>|…
-   → err <e> itrs=<n> restarts=<n> acts=…
-state                                                       → itrs=<n> restarts=<n>
+   → ok np=<n> restart=0|1 itrs=<n> restarts=<n> point=initial|moved|e<tok> acts=<act>|<act>|…
+   → err <e> itrs=<n> restarts=<n> point=… acts=…
+state                                                       → itrs=<n> restarts=<n> point=…
 ```
 The scripted ranker answer (`perm`, `vals`) and stop bit are turned into the
 constant functions the model's `TellIn` expects.
@@ -38,6 +38,7 @@ def showCenter : Center → String
 def showAct : Act String → String
   | .rank sols st => s!"rank:{showNatList sols}:{showNatList st}"
   | .optTell idx vals np => s!"tell:{showNatList idx}:{showList id vals}:{np}"
+  | .gradStep => "gstep"
   | .checkStop sorted => s!"stop:{showList id sorted}"
   | .sampleElite => "sample"
   | .gradReset c => s!"greset:{showCenter c}"
@@ -58,7 +59,13 @@ def parseKind : String → Option Kind
   | "gae" => some .gae
   | _ => none
 
-def counters (s : EsControl.St) : String := s!"itrs={s.itrs} restarts={s.restarts}"
+def showPoint : Point → String
+  | .initial => "initial"
+  | .elite t => s!"e{t}"
+  | .moved => "moved"
+
+def counters (s : EsControl.St) : String :=
+  s!"itrs={s.itrs} restarts={s.restarts} point={showPoint s.point}"
 
 def step (st : St) (toks : List String) : St × String :=
   match toks with
